@@ -291,6 +291,73 @@ def seenFile : Option FileContent → FileContent
   | some c => c
   | none => .malformed
 
+/-! ## the binding context of overlapping requests
+
+`serveReviewRequest` runs once per HTTP request, concurrently; each request goes through
+`AdmissionBindingsController.HandleEvent` (which builds the `BindingExecutionInfo` with the
+one-element `BindingContext` slice: binding name + the request's `AdmissionReview`), the closure
+stores that slice in the task's `HookMetadata`, and only later — after `RateLimitWait` —
+`Hook.Run` serialises it into the run's binding context file (`prepareBindingContextJsonFile`, all
+files of all runs in one temp directory), which the hook process reads when it starts. In between,
+other requests go through `HandleEvent` of the same controller and the same link, and through
+`Hook.Run` of the same hook. -/
+
+/-- what a hook process finds in its binding context file: for which binding of which hook, and
+the uid of the AdmissionReview request in it -/
+structure Handed where
+  hook : Nat
+  binding : Binding
+  uid : String
+  deriving DecidableEq, Repr
+
+/-- the steps of a request that touch its binding context -/
+inductive CtxEv where
+  | hand (run : Nat) (c : Handed)   -- `HandleEvent`: the context is written into the slice the task will hold
+  | prepare (run : Nat)             -- `Hook.Run` → `prepareBindingContextJsonFile`: the slice the task holds is written to the run's context file
+  | start (run : Nat)               -- the hook process reads `$BINDING_CONTEXT_PATH`
+  deriving DecidableEq, Repr
+
+def CtxEv.run : CtxEv → Nat
+  | .hand r _ => r
+  | .prepare r => r
+  | .start r => r
+
+/-- the backing arrays of the `BindingContext` slices (slot → its only element), the binding context
+files in the temp directory (name → content) and what every run's process found in its file -/
+structure CtxSt where
+  slots : Nat → Option Handed
+  files : Nat → Option Handed
+  given : Nat → List (Option Handed)
+
+def CtxSt.init : CtxSt := ⟨fun _ => none, fun _ => none, fun _ => []⟩
+
+/-- one step; `slot run` = the backing array of the slice `HandleEvent` returned for that run,
+`file run` = the name `prepareBindingContextJsonFile` chose for that run -/
+def ctxStep (slot file : Nat → Nat) (s : CtxSt) : CtxEv → CtxSt
+  | .hand r c => { s with slots := fun n => if n = slot r then some c else s.slots n }
+  | .prepare r => { s with files := fun n => if n = file r then s.slots (slot r) else s.files n }
+  | .start r => { s with given := fun q => if q = r then s.given r ++ [s.files (file r)] else s.given q }
+
+def ctxExec (slot file : Nat → Nat) (t : List CtxEv) : CtxSt := t.foldl (ctxStep slot file) .init
+
+/-- does every `return` of `HandleEvent` build its `BindingContext` slice in that call (a slice
+literal), the element being a struct value declared in the call? Regenerated from the source on
+every run. -/
+def perRequestContext : Bool :=
+  !ShellOp.Facts.c14HandleEventCtxExprs.isEmpty &&
+    ShellOp.Facts.c14HandleEventCtxExprs.all (fun e => "[]bctx.BindingContext{".toList.isPrefixOf e.toList) &&
+    ShellOp.Facts.c14HandleEventBcType == "bctx.BindingContext"
+
+/-- is there a per-run part (a fresh uuid) among the arguments of the context file name's format
+string? Regenerated from `prepareBindingContextJsonFile` on every run. -/
+def perRunContextFile : Bool :=
+  ShellOp.Facts.c14ContextFileArgs.any (fun a => hasInfix "uuid.NewV4()".toList a.toList)
+
+/-- the backing array as a number: one per `HandleEvent` call when the slice is built in the call,
+one per link (hook controller × webhook id) when it is kept with the link -/
+def contextSlot (perRequest : Bool) (linkOf : Nat → Nat) (run : Nat) : Nat :=
+  if perRequest then 2 * run + 1 else 2 * linkOf run
+
 /-! ## the specification, on one observed exchange -/
 
 /-- no two bindings (of any hooks) share a webhook id, and hook ids are distinct -/
@@ -337,5 +404,13 @@ def checkObs (hooks : List Hook) (run : Nat → Binding → Outcome) (path : Str
   | .ok _, .http400 => some "a-decodable-AdmissionReview-was-answered-with-400"
   | _, .review r => if r.allowed then some "allowed-although-the-body-is-not-an-AdmissionReview" else none
   | _, .http400 => if ran.isSome then some "a-hook-ran-for-an-undecodable-body" else none
+
+/-- The hand-over clause of C14 on one observed hook process: the process started for the request
+`uid` sent to `path` found `got` in its binding context. `none` = holds. -/
+def checkHanded (hooks : List Hook) (path : Str) (uid : String) (got : Handed) : Option String :=
+  if got.uid ≠ uid then some "the-hook-process-was-handed-another-request"
+  else if !registeredFor hooks path got.hook got.binding then
+    some "handed-to-a-hook-or-binding-that-did-not-register-this-path"
+  else none
 
 end ShellOp.Admission
